@@ -171,7 +171,11 @@ def result_case(draw):
         kinds = kinds + ['weighted']        # BFGS fits: only where few fits are needed
     if routine == 'manual':
         kinds = kinds + ['abstract']
-    models = draw(st.lists(st.sampled_from(kinds), min_size=1, max_size=3))
+    if routine in ('fixed', 'manual') and draw(st.integers(0, 5)) == 0:
+        # many models: storage keys 'model_10', 'model_11' sort before 'model_2' alphabetically
+        models = draw(st.lists(st.sampled_from(kinds), min_size=11, max_size=13))
+    else:
+        models = draw(st.lists(st.sampled_from(kinds), min_size=1, max_size=3))
     case = {
         'routine': routine, 'n_cond': n_cond, 'n_rdm': n_rdm, 'seed': draw(st.integers(0, 2 ** 20)),
         'method': draw(st.sampled_from(['cosine', 'corr', 'spearman'])),
@@ -603,6 +607,7 @@ def classify_result(case):
     io_ = case['io']
     labels = ['fmt:' + io_['fmt'], 'target:' + io_['target'], 'routine:' + case['routine']]
     labels += ['model:' + k for k in sorted(set(case['models']))]
+    labels.append('n_models>10' if len(case['models']) > 10 else 'n_models<=3')
     if case['routine'] == 'manual':
         labels.append('variances:' + case['manual']['var_kind'])
     return labels, True
